@@ -65,8 +65,15 @@ class LoadFamily:
         mode = rng.choice(['quiescent', 'quiescent', 'inline'])
         rules = [{'match': {'uses': IRQ}, 'action': 'next', 'times': 100000}]
         immediate = rng.random() < 0.25
-        ops = [{'op': 'starts', 'items': items, 'threads': min(N, 8)}] + ([] if immediate else [{'op': 'quiesce'}]) + [{'op': 'start', 'mid': items[0]['mid'], 'vars': dict(items[0]['vars'])}, {'op': 'run'}, {'op': 'snapshot', 'level': 'rows'}]
+        starts_op = {'op': 'starts', 'items': items, 'threads': min(N, 8)}
+        storm = rng.random() < opts.get('storm', 0.35)
+        if storm:
+            # further starts of p0 arrive from their own threads while the first one is being launched
+            starts_op['dups'] = [{'mid': items[0]['mid'], 'vars': dict(items[0]['vars']), 'delay_us': rng.choice([0, 20, 50, 100, 200, 400, 800])} for _ in range(rng.randint(2, 6))]
+        ops = [starts_op] + ([] if immediate else [{'op': 'quiesce'}]) + [{'op': 'start', 'mid': items[0]['mid'], 'vars': dict(items[0]['vars'])}, {'op': 'run'}, {'op': 'snapshot', 'level': 'rows'}]
         rt = {'flavor': 'multi', 'workers': workers, 'chaos': {'max_yields': 3, 'seed': rng.randrange(1, 1 << 40)}}
+        if storm:
+            rt['chaos']['pause_us'] = rng.choice([100, 300, 600])
         L = {'id': '', 'family': 'load', 'sched': f'N{N}-cap{cap}-w{workers}-{mode}', 'seed': rng.randrange(1 << 30), 'runtime': rt, 'engine': {'store': 'mem', 'keep_processes': True, 'cache_cap': cap},
              'models': [json.dumps(m) for m in models], 'responder': {'mode': mode, 'order': 'seeded', 'rules': rules, 'max_rounds': 100000}, 'ops': ops, 'watchdog_ms': 90000}
         solos = []
@@ -93,6 +100,14 @@ class LoadFamily:
         # duplicate start with a live pid
         dup = [o for o in L.ops if o['op'] == 'start']
         starts = [o for o in L.ops if o['op'] == 'starts'][0]['res']['results']
+        storm = [o for o in L.ops if o['op'] == 'starts'][0]['res'].get('dups') or []
+        accepted = sum(1 for r in storm if r['ok']) + (1 if starts[0]['ok'] else 0)
+        if storm:
+            obs['c13.duplicate-starts-during-launch'] += len(storm)
+            if accepted > 1:
+                out.append(V('C13', 'duplicate-pid-accepted', 'during-launch', f"{accepted} of {len(storm) + 1} concurrent starts with the pid p0 were accepted", scenario=sc['id']))
+            if accepted >= 1 and not starts[0]['ok']:
+                starts[0] = dict(starts[0], ok=True)     # one of the other starts of p0 won: p0 runs all the same
         dup_ok = bool(dup and dup[0]['res']['ok'] and starts[0]['ok'])
         if dup_ok:
             first_root = next((e['seq'] for e in L.creates if e['pid'] == 'p0'), 1 << 62)
